@@ -5,6 +5,7 @@ package main
 
 import (
 	"fmt"
+	"os"
 	"strings"
 
 	"golang.org/x/tools/go/ssa"
@@ -46,11 +47,14 @@ type runState struct {
 	depth     int
 	mapEpoch0 int // maps older than this must not be written (merge regions)
 	outputs   []string
+	trace     []string
+	ptrace    []string
 }
 
 type item struct {
-	doms [][]bool
-	dec  []decision
+	doms  [][]bool
+	dec   []decision
+	trace []string
 }
 type wl struct{ items []item }
 
@@ -151,7 +155,7 @@ func choose(v *cvar, alts [][]bool) int {
 			d[v.id] = alts[k]
 			nd := make([]decision, rs.pos)
 			copy(nd, rs.decisions[:rs.pos])
-			curWorklist().push(item{d, nd})
+			curWorklist().push(item{d, nd, append([]string(nil), rs.trace...)})
 		}
 	}
 	rs.domains[v.id] = alts[0]
@@ -178,11 +182,54 @@ func (r *runState) pending(key ssa.Instruction, n int) *decision {
 	return nil
 }
 
+func traceEv(key ssa.Instruction, n int, c value, pend *decision) {
+	if !debugTrace {
+		return
+	}
+	kind := describe(c)
+	if t, ok := c.(*term); ok {
+		kind = "term"
+		if t.isConst() {
+			kind = "constterm"
+		}
+	}
+	if _, ok := c.(bool); ok {
+		return
+	}
+	fn := ""
+	if key != nil && key.Parent() != nil {
+		fn = key.Parent().Name()
+	}
+	ev := fmt.Sprintf("%s:%v#%d %s", fn, key, n, kind)
+	det := ""
+	if t, ok := c.(*term); ok && !t.isConst() {
+		_, k := rs.lookupKnown(t.String())
+		det = fmt.Sprintf("\tknown=%v pend=%v len=%d pos=%d/%d %.200s", k, pend != nil, len(t.String()), rs.pos, len(rs.decisions), t.String())
+	}
+	i := len(rs.trace)
+	rs.trace = append(rs.trace, ev+det)
+	if i < len(rs.ptrace) && strings.SplitN(rs.ptrace[i], "\t", 2)[0] != ev && !traceReported {
+		traceReported = true
+		fmt.Fprintf(os.Stderr, "TRACE DIVERGENCE at event %d:\n  parent: %s\n  child:  %s\n", i, rs.ptrace[i], ev)
+		for j := i - 3; j < i; j++ {
+			if j >= 0 {
+				fmt.Fprintf(os.Stderr, "  before: %s\n", rs.ptrace[j])
+			}
+		}
+	}
+}
+
+var debugTrace = os.Getenv("GOSYM_TRACE") != ""
+var traceReported bool
+
 func branch(c value) bool {
 	key := rs.curInstr
 	n := rs.occ[key]
 	rs.occ[key] = n + 1
 	pend := rs.pending(key, n)
+	if rs.noCheck == 0 {
+		traceEv(key, n, c, pend)
+	}
 	switch x := c.(type) {
 	case bool:
 		if pend != nil {
@@ -277,6 +324,18 @@ func branchTerm(c *term, key ssa.Instruction, n int, pend *decision) bool {
 		return pend.side
 	}
 	if rs.pos < len(rs.decisions) {
+		// A recorded decision lies ahead, so on the recorded path this branch took no
+		// decision: it was implied by the path condition (the parent recognised it
+		// syntactically; here the term may be spelled differently because a domain is
+		// narrower). Resolve it semantically; anything else is an engine error.
+		if impliedByPC(c) {
+			stats.impliedBranches++
+			return true
+		}
+		if impliedByPC(mkNot(c)) {
+			stats.impliedBranches++
+			return false
+		}
 		d := rs.decisions[rs.pos]
 		panic(engineError{fmt.Sprintf("decision order mismatch: at %v#%d, pending %v#%d", key, n, d.site, d.occ)})
 	}
@@ -301,7 +360,7 @@ func branchTerm(c *term, key ssa.Instruction, n int, pend *decision) bool {
 	nd := make([]decision, rs.pos, rs.pos+1)
 	copy(nd, rs.decisions[:rs.pos])
 	nd = append(nd, decision{key, n, false, false})
-	curWorklist().push(item{snapshotDoms(), nd})
+	curWorklist().push(item{snapshotDoms(), nd, append([]string(nil), rs.trace...)})
 	rs.decisions = append(rs.decisions[:rs.pos], decision{key, n, true, false})
 	rs.pos++
 	assertPC(c)
@@ -500,7 +559,10 @@ func mergeCallUncached(fn *ssa.Function, args []value, free []value) value {
 	var alts []alt
 	for _, o := range outs {
 		g := tTrue
-		for id := range changed {
+		for id := 0; id < len(outer.domains); id++ { // in variable order: the term text must be deterministic
+			if !changed[id] {
+				continue
+			}
 			if !sameDom(o.doms[id], outer.domains[id]) {
 				g = mkAnd(g, inSet(outer.vars[id], o.doms[id]))
 			}
